@@ -527,7 +527,13 @@ func corpus(w *world) {
 	// LOCATE: bytes, case folding, NULL position, panic
 	w.locateIdentity(T("b"), T("×b"), nil)
 	w.locateIdentity(T("A"), T("a"), nil)
-	w.locateIdentity(T("a"), T(""), &[]val{I(2)}[0])
+	w.locateIdentity(T("a"), T(""), &[]val{I(2)}[0]) // witness of the repaired locate_empty_str_pos_panics: must be 0 now
+	w.locateEmpty(T("a"), 2)
+	w.locateEmpty(T("a"), 1)
+	w.locateEmpty(T("ab"), 3)
+	w.locateEmpty(T("A"), math.MaxInt32)
+	w.locateEmpty(T("€"), math.MaxInt64)
+	w.locateEmpty(T(""), 2)
 	w.locateIdentity(T("a"), T("a"), &N)
 	w.locateIdentity(T("lo"), T("hello"), &[]val{I(2)}[0])
 	// BIN of negative numbers
@@ -535,9 +541,18 @@ func corpus(w *world) {
 	w.baseIdentity(-1)
 	w.baseIdentity(5)
 	// SUBSTRING length overflow
+	// (witnesses of the repaired substring_len_overflow_panics: must be the rest of the string now)
 	w.check1("substring", T("abc"), I(2), I(math.MaxInt64))
 	w.check1("substring", T("abc"), I(-1), I(math.MaxInt64))
 	w.check1("substring", T("abc"), I(1), I(math.MaxInt64))
+	w.substrRest(T("abc"), 2, math.MaxInt64)
+	w.substrRest(T("abc"), -2, math.MaxInt64)
+	w.substrRest(T("abc"), 3, math.MaxInt64-1)
+	w.substrRest(T("héllo€"), 6, math.MaxInt64-4)
+	w.substrRest(T("héllo€"), -6, math.MaxInt64)
+	w.substrRest(T("abc"), math.MinInt64, math.MaxInt64)
+	w.substrRest(T("abc"), math.MaxInt64, math.MaxInt64)
+	w.substrRest(T(""), 1, math.MaxInt64)
 	w.ev("substring", T("hello"), I(-2))
 	w.ev("substring", T("hello"), I(0))
 	// GREATEST/LEAST through float64
@@ -846,24 +861,11 @@ func (w *world) nullAndCrash(id, name string, args []val, r res) {
 	}
 }
 
+// crashTag: no panic class is a listed finding any more. The two that were
+// (locate_empty_str_pos_panics: LOCATE with an empty haystack and pos>1; substring_len_overflow_panics: SUBSTRING with
+// startIdx+len beyond int64) were repaired by the `fix:` commit, so a call that panics — these two
+// classes included — is an unlisted failure (region "-" ⇒ VIOLATION).
 func crashTag(name string, args []val) string {
-	switch name {
-	case "locate":
-		if len(args) == 3 && args[1].isStr() && args[1].b == "" && args[2].k == kInt && args[2].i > 1 {
-			return "locate_empty_str_pos_panics"
-		}
-	case "substring":
-		if len(args) == 3 && args[0].isStr() && args[1].k == kInt && args[2].k == kInt {
-			rc := int64(utf8.RuneCountInString(args[0].b))
-			sidx := args[1].i - 1
-			if args[1].i < 0 {
-				sidx = rc + args[1].i
-			}
-			if 0 <= sidx && sidx < rc && args[2].i > math.MaxInt64-sidx {
-				return "substring_len_overflow_panics"
-			}
-		}
-	}
 	return "-"
 }
 
@@ -985,6 +987,40 @@ func (w *world) inetIdentity(ip string) {
 	id2, r2 := w.ev("inet_ntoa", r.v)
 	if !sameStr(r2, ip) {
 		w.fail(id2, tag, "INET_NTOA(INET_ATON(%q)) = %s", ip, r2.obs)
+	}
+}
+
+// substrRest: a length that reaches beyond the end — up to the end of int64, where start+len
+// overflows — takes the rest: SUBSTRING(s,p,huge) = SUBSTRING(s,p) (no panic; the repaired class
+// substring_len_overflow_panics).
+func (w *world) substrRest(s val, p, huge int64) {
+	args := []val{s, vInt(p), vInt(huge)}
+	id, r := w.ev("substring", args...)
+	w.nullAndCrash(id, "substring", args, r)
+	_, rest := w.ev("substring", s, vInt(p))
+	if r.obs == "crash" || !s.isStr() || !utf8.ValidString(s.b) || huge < int64(utf8.RuneCountInString(s.b)) {
+		return
+	}
+	if !(r.ok && rest.ok && r.v.isStr() && rest.v.isStr() && r.v.b == rest.v.b) {
+		w.fail(id, "-", "SUBSTRING(%q,%d,%d) = %s ≠ SUBSTRING(%q,%d) = %s", s.b, p, huge, r.obs, s.b, p, rest.obs)
+	}
+}
+
+// locateEmpty: nothing non-empty is found in the empty string, from whatever position, and
+// LOCATE of the empty needle in it is 1 only for p = 1 (no panic; the repaired class locate_empty_str_pos_panics).
+func (w *world) locateEmpty(sub val, p int64) {
+	args := []val{sub, vText(""), vInt(p)}
+	id, r := w.ev("locate", args...)
+	w.nullAndCrash(id, "locate", args, r)
+	if r.obs == "crash" || !sub.isStr() || !utf8.ValidString(sub.b) {
+		return
+	}
+	want := int64(0)
+	if sub.b == "" && p == 1 {
+		want = 1
+	}
+	if !(r.ok && r.v.k == kInt && r.v.i == want) {
+		w.fail(id, "-", "LOCATE(%q,'',%d) = %s, want %d", sub.b, p, r.obs, want)
 	}
 }
 
@@ -1170,6 +1206,14 @@ func identities(w *world, g *gen, n int) {
 			if !(l.ok && rest.ok && l.v.isStr() && rest.v.isStr() && l.v.b+rest.v.b == s) {
 				w.fail(idl, "-", "LEFT(%q,%d) ++ SUBSTRING(%q,%d) = %s ++ %s", s, k, s, k+1, l.obs, rest.obs)
 			}
+			// a length up to the end of int64 takes the rest (start+len must not overflow)
+			w.substrRest(sv, k+1, math.MaxInt64-int64(g.r.Intn(3)))
+			if g.r.Chance(1, 4) {
+				w.substrRest(sv, -(k + 1), hx.Pick(g.r, bigInts))
+				if caseless(t) {
+					w.locateEmpty(tv, int64(g.r.Range(-1, 4)))
+				}
+			}
 			cl, _ := w.charLen(sv)
 			if k <= cl {
 				ids, pre := w.ev("substring", sv, I(1), I(k))
@@ -1321,7 +1365,7 @@ func identities(w *world, g *gen, n int) {
 
 func extract(a hx.ExtractArgs) error {
 	lf := hx.NewLeanFile("Gms.Generated.C34", "sql/expression/function/registry.go", "rpad_lpad.go", "tobase64_frombase64.go", "conv.go",
-		"inet_convert.go", "sql/types/decimal.go", "run-time dumps of HEX/UPPER/LOWER/TO_BASE64")
+		"inet_convert.go", "locate.go", "substring.go", "sql/types/decimal.go", "run-time dumps of HEX/UPPER/LOWER/TO_BASE64")
 
 	// 1. registry: name ↦ (arity class, constructor) for every entry of `BuiltIns`
 	src, err := hx.ParseSrc(a.Repo, "sql/expression/function/registry.go")
@@ -1493,6 +1537,80 @@ func extract(a hx.ExtractArgs) error {
 	})
 	lf.Comment("InetNtoa.Eval: receivers of its Convert calls")
 	lf.DefStringList("inetNtoaConvertTypes", convTypes)
+
+	// Locate.Eval / Substring.Eval: the shape of the bounds handling (repaired by the `fix:` commit
+	// for the regions locate_empty_str_pos_panics and substring_len_overflow_panics)
+	los, err := hx.ParseSrc(a.Repo, "sql/expression/function/locate.go")
+	if err != nil {
+		return err
+	}
+	lfd, err := los.Func("Locate", "Eval")
+	if err != nil {
+		return err
+	}
+	var locConds, locSlices []string
+	nSwitch := 0
+	ast.Inspect(lfd.Body, func(n ast.Node) bool {
+		switch x := n.(type) {
+		case *ast.SwitchStmt:
+			if x.Tag == nil && x.Init == nil {
+				nSwitch++
+				for _, st := range x.Body.List {
+					if cc, ok := st.(*ast.CaseClause); ok {
+						var alts []string
+						for _, e := range cc.List {
+							alts = append(alts, los.Text(e))
+						}
+						if cc.List == nil {
+							alts = []string{"default"}
+						}
+						locConds = append(locConds, strings.Join(alts, " , "))
+					}
+				}
+			}
+		case *ast.SliceExpr:
+			locSlices = append(locSlices, los.Text(x))
+		}
+		return true
+	})
+	if nSwitch != 1 {
+		return fmt.Errorf("Locate.Eval: expected exactly one tagless switch (the edge cases), found %d", nSwitch)
+	}
+	lf.Comment("Locate.Eval: the case conditions of its edge-case switch, in order, and its slice expressions")
+	lf.DefStringList("locateSwitchConds", locConds)
+	lf.DefStringList("locateSliceExprs", locSlices)
+	sus, err := hx.ParseSrc(a.Repo, "sql/expression/function/substring.go")
+	if err != nil {
+		return err
+	}
+	sfd, err := sus.Func("Substring", "Eval")
+	if err != nil {
+		return err
+	}
+	var subConds, subAssigns, subSlices []string
+	ast.Inspect(sfd.Body, func(n ast.Node) bool {
+		switch x := n.(type) {
+		case *ast.IfStmt:
+			if c := sus.Text(x.Cond); strings.Contains(c, "runeCount") {
+				subConds = append(subConds, c)
+				for _, st := range x.Body.List {
+					if as, ok := st.(*ast.AssignStmt); ok {
+						subAssigns = append(subAssigns, sus.Text(as))
+					}
+				}
+			}
+		case *ast.SliceExpr:
+			subSlices = append(subSlices, sus.Text(x))
+		}
+		return true
+	})
+	if len(subConds) == 0 || len(subSlices) == 0 {
+		return fmt.Errorf("Substring.Eval: no condition on runeCount / no slice expression found")
+	}
+	lf.Comment("Substring.Eval: its if conditions on runeCount, in order; the assignments they guard (the length clamp); its slice expressions")
+	lf.DefStringList("substringRuneCountConds", subConds)
+	lf.DefStringList("substringClampAssigns", subAssigns)
+	lf.DefStringList("substringSliceExprs", subSlices)
 
 	// 3. run-time dumps from the freshly compiled functions
 	e := eng.New("d")
